@@ -26,23 +26,30 @@ pub fn has_text(route: &str) -> bool {
     TEXT_ROUTES.contains(&route)
 }
 
-#[derive(Clone, Debug, PartialEq)]
+#[derive(Clone)]
 pub struct RouteErr {
     pub message: String,
     pub span: Option<(usize, usize)>,
     pub rendered: String,
     /// the error arose before the reader peer was involved (parse error of the text / intermediate conversion)
     pub pre_peer: bool,
+    /// the error value itself (for rendering into a failing sink)
+    pub obj: std::rc::Rc<dyn std::fmt::Display>,
+}
+impl std::fmt::Debug for RouteErr {
+    fn fmt(&self, f: &mut std::fmt::Formatter<'_>) -> std::fmt::Result {
+        write!(f, "RouteErr({:?}, span={:?})", self.message, self.span)
+    }
 }
 
 fn e_toml(e: toml::de::Error, pre: bool) -> RouteErr {
-    RouteErr { message: e.message().to_string(), span: e.span().map(|r| (r.start, r.end)), rendered: e.to_string(), pre_peer: pre }
+    RouteErr { message: e.message().to_string(), span: e.span().map(|r| (r.start, r.end)), rendered: e.to_string(), pre_peer: pre, obj: std::rc::Rc::new(e) }
 }
 fn e_edit(e: toml_edit::de::Error, pre: bool) -> RouteErr {
-    RouteErr { message: e.message().to_string(), span: e.span().map(|r| (r.start, r.end)), rendered: e.to_string(), pre_peer: pre }
+    RouteErr { message: e.message().to_string(), span: e.span().map(|r| (r.start, r.end)), rendered: e.to_string(), pre_peer: pre, obj: std::rc::Rc::new(e) }
 }
 fn e_tomlerr(e: toml_edit::TomlError, pre: bool) -> RouteErr {
-    RouteErr { message: e.message().to_string(), span: e.span().map(|r| (r.start, r.end)), rendered: e.to_string(), pre_peer: pre }
+    RouteErr { message: e.message().to_string(), span: e.span().map(|r| (r.start, r.end)), rendered: e.to_string(), pre_peer: pre, obj: std::rc::Rc::new(e) }
 }
 
 /// Run one route. For R7a/R7b `text` must be the text of a single value.
@@ -72,6 +79,6 @@ pub fn run_route(route: &str, text: &str, ty: &Ty, cfg: &RCfg, cx: &Ctx) -> Resu
             let de = text.parse::<toml_edit::de::ValueDeserializer>().map_err(|e| e_edit(e, true))?;
             with_peer(ty, cfg, cx, || DynVal::deserialize(de)).map(|d| d.0).map_err(|e| e_edit(e, false))
         }
-        other => Err(RouteErr { message: format!("HARNESS: unknown route {other}"), span: None, rendered: String::new(), pre_peer: true }),
+        other => Err(RouteErr { message: format!("HARNESS: unknown route {other}"), span: None, rendered: String::new(), pre_peer: true, obj: std::rc::Rc::new(String::new()) }),
     }
 }
